@@ -48,7 +48,11 @@ def main():
                     "Ignore mappings other than the one equivalent to the category set"]
     chk.stubs += ["nbdime.args.get_defaults_for_argparse -> {} while the nbdiff parser runs (no configuration files; C19 covers them)",
                   "isinstance inside nbdime modules -> sx.values.sym_isinstance"]
-    chk.require_goals(["nonempty-diff-with-ignores", "empty-diff-with-differences"])
+    chk.require_goals(["nonempty-diff-with-ignores", "empty-diff-with-differences",
+                       "key-list-ignore-with-in-place-change"])
+    chk.bounds["key-list ignores"] = ("'Ignore' mappings with key lists: 32 subsets of 5 (path, key) pairs at notebook, cell and "
+                                      "output metadata level x 32 difference subsets (scalar replacement / in-place change of an "
+                                      "object or list value)")
     return chk.finish()
 
 
